@@ -20,6 +20,10 @@ func Concurrent(level int) []*tv.Package {
 	b.add("conc/go-last-in-block", "func FN(x uint64) uint64 {\n\tv := new(uint64)\n\twg := new(sync.WaitGroup)\n\twg.Add(1)\n\tif x > 1 {\n\t\tgo func() {\n\t\t\t*v = 9\n\t\t\twg.Done()\n\t\t}()\n\t} else {\n\t\twg.Done()\n\t}\n\twg.Wait()\n\treturn *v\n}")
 	b.add("conc/lock-protects-two-cells", "func FN(x uint64) uint64 {\n\tmu := new(sync.Mutex)\n\ta := new(uint64)\n\tb := new(uint64)\n\twg := new(sync.WaitGroup)\n\twg.Add(1)\n\tgo func() {\n\t\tmu.Lock()\n\t\t*a = x\n\t\t*b = x\n\t\tmu.Unlock()\n\t\twg.Done()\n\t}()\n\tmu.Lock()\n\td := *a - *b\n\tmu.Unlock()\n\twg.Wait()\n\treturn d\n}")
 	b.add("conc/waittimeout-with-signal", "func FN(x uint64) uint64 {\n\tmu := new(sync.Mutex)\n\tcond := sync.NewCond(mu)\n\tdone := new(bool)\n\tgo func() {\n\t\tmu.Lock()\n\t\t*done = true\n\t\tcond.Signal()\n\t\tmu.Unlock()\n\t}()\n\tmu.Lock()\n\tfor !*done {\n\t\tmachine.WaitTimeout(cond, 10)\n\t}\n\tmu.Unlock()\n\treturn x\n}")
+	b.add("conc/if-last-in-goroutine", "func FN(x uint64) uint64 {\n\tmu := new(sync.Mutex)\n\tv := new(uint64)\n\twg := new(sync.WaitGroup)\n\twg.Add(1)\n\tgo func() {\n\t\tmu.Lock()\n\t\t*v = x\n\t\tmu.Unlock()\n\t\tif x > 2 {\n\t\t\twg.Done()\n\t\t} else {\n\t\t\twg.Done()\n\t\t}\n\t}()\n\twg.Wait()\n\treturn *v\n}")
+	b.add("conc/if-without-else-last-in-goroutine", "func FN(x uint64) uint64 {\n\tmu := new(sync.Mutex)\n\tv := new(uint64)\n\tdone := new(bool)\n\tgo func() {\n\t\tmu.Lock()\n\t\t*done = true\n\t\tif x > 2 {\n\t\t\t*v = 5\n\t\t}\n\t\tmu.Unlock()\n\t}()\n\tmu.Lock()\n\tvar r = *v\n\tif !*done {\n\t\tr = 99\n\t}\n\tmu.Unlock()\n\treturn r\n}")
+	b.add("conc/single-call-goroutine", "func FNwork(p *uint64, wg *sync.WaitGroup, x uint64) {\n\t*p = x + 2\n\twg.Done()\n}\n\nfunc FN(x uint64) uint64 {\n\tv := new(uint64)\n\twg := new(sync.WaitGroup)\n\twg.Add(1)\n\tgo func() {\n\t\tFNwork(v, wg, x)\n\t}()\n\twg.Wait()\n\treturn *v\n}")
+	b.add("conc/read-captured-var", "func FN(x uint64) uint64 {\n\tvar n = x\n\tout := new(uint64)\n\twg := new(sync.WaitGroup)\n\twg.Add(1)\n\tgo func() {\n\t\t*out = n + 1\n\t\twg.Done()\n\t}()\n\twg.Wait()\n\treturn *out\n}")
 	b.add("conc/sleep", "func FN(x uint64) uint64 {\n\tmachine.Sleep(1000)\n\treturn x + 1\n}")
 	return b.packages("conc", hdr, 40)
 }
